@@ -191,6 +191,16 @@ impl<const N: usize> NdLayout<N> {
     //@|     r is Some <==> all_lt(index@, self.shape@, N as int), // @ob:offset.some_iff_in_bounds
     //@|     r is Some ==> r.unwrap() as int == dot(index@, self.strides@, N as int)
     //@|         && r.unwrap() as int <= max_dot(self.shape@, self.strides@, N as int), // @ob:offset.exact_and_bounded
+
+    //@extract kind=fn file=rten-tensor/src/layout.rs within="impl<const N: usize> MutLayout for NdLayout<N>" name=resize_dim
+    //@| requires dim < N   // indexing panics otherwise
+    //@| ensures final(self).shape@ == old(self).shape@.update(dim as int, size), final(self).strides == old(self).strides, // @ob:resize_dim.only_that_size
+
+    //@extract kind=fn file=rten-tensor/src/layout.rs within="impl<const N: usize> Layout for NdLayout<N>" name=strides
+    //@| ensures r == self.strides, // @ob:strides.exact
+
+    //@extract kind=fn file=rten-tensor/src/layout.rs within="impl<const N: usize> Layout for NdLayout<N>" name=ndim
+    //@| ensures r == N, // @ob:ndim.exact
 }
 
 /// `Layout::size` / `Layout::stride` (default methods: `.get(dim).expect(..)` on the shape/stride
@@ -214,6 +224,17 @@ impl<const N: usize> NdLayout<N> {
         requires max_dot(self.shape@, self.strides@, N as int) <= usize::MAX
         ensures all_lt(index@, self.shape@, N as int), r as int == dot(index@, self.strides@, N as int)
     { unimplemented!() }
+}
+
+impl NdLayout<2> {
+    //@extract kind=fn file=rten-tensor/src/layout.rs within="impl MatrixLayout for NdLayout<2>" name=rows
+    //@| ensures r == self.shape@[0], // @ob:rows.exact
+    //@extract kind=fn file=rten-tensor/src/layout.rs within="impl MatrixLayout for NdLayout<2>" name=cols
+    //@| ensures r == self.shape@[1], // @ob:cols.exact
+    //@extract kind=fn file=rten-tensor/src/layout.rs within="impl MatrixLayout for NdLayout<2>" name=row_stride
+    //@| ensures r == self.strides@[0], // @ob:row_stride.exact
+    //@extract kind=fn file=rten-tensor/src/layout.rs within="impl MatrixLayout for NdLayout<2>" name=col_stride
+    //@| ensures r == self.strides@[1], // @ob:col_stride.exact
 }
 
 //@extract kind=fn file=rten-tensor/src/tensor.rs name=array_offsets
